@@ -701,6 +701,11 @@ class PortProtocol(_DeviceIdFilterMixin, _BaseProtocol):
         if priority is None:  # e.g. from entity_base._async_send_cmd() (binding)
             priority = Priority.DEFAULT  # type: ignore[unreachable]
 
+        try:  # a cmd without a (computable) header can't be matched to its echo/reply
+            _ = cmd.tx_header, cmd.rx_header
+        except exc.PacketInvalid as err:
+            raise exc.ProtocolSendFailed(f"Failed to send command: {cmd} ({err})") from err
+
         if qos and not self._context:
             _LOGGER.warning(f"{cmd} < QoS is currently disabled by this Protocol")
 
